@@ -6,7 +6,7 @@ driver predicts, from the fault class of every attempt, the engine-call trace (c
 class, the number of attempts and the cache/lease state.  Property monitors look at the implementation's output only.
 """
 import os, json, re
-from vlib.core import Ctx, hexs, unhex, ddmin, ModelBuildError
+from vlib.core import Ctx, hexs, unhex, ddmin, ModelBuildError, load_known_findings
 
 ID = "C17"
 MODULES = ["IoraModel.Props.C17"]
@@ -442,6 +442,32 @@ def gen_read_boundary(rng, seq, thorough):
     return cases
 
 
+def gen_repeated_connection(rng, seq):
+    """The `Connection` field spread over several field lines: by RFC 9110 §5.3 they combine, in order, into one comma-separated
+    list, so a `close` on ANY of the lines closes. The model is told the combined value (what the framer must hand over)."""
+    cases = []
+    combos = [([b"close", b"keep-alive"], b"Connection"), ([b"keep-alive", b"close"], b"Connection"), ([b"close", b"upgrade"], b"connection"),
+              ([b"foo", b"Close", b"bar"], b"Connection"), ([b"keep-alive", b"upgrade"], b"Connection"), ([b"keep-alive", b"keep-alive"], b"CONNECTION")]
+    for vals, second_name in combos:
+        for version in (b"1.1", b"1.0"):
+            seq.next()
+            tag = ("r%d" % seq.n).encode()
+            body = b"body-" + tag
+            head = b"HTTP/" + version + b" 200 OK\r\nX-Tag: " + tag + b"\r\nConnection: " + vals[0] + b"\r\n"
+            for v in vals[1:]:
+                head += second_name + b": " + v + b"\r\n"
+            wire = head + b"Content-Length: " + str(len(body)).encode() + b"\r\n\r\n" + body
+            combined = b", ".join(vals)
+            t = "K:200,%s,%s,0:1@%s" % (hexs(combined), hexs(version), conc(resp=wire, xbody=body))
+            seq.next()
+            follow = tok_ok(mk_resp(tag + b"n", "GET"))
+            cases.append({"cat": "repeated-connection", "ops": ["reset 1 0 50", req_op("GET", 0, 0, 0, [t, follow]), req_op("GET", 0, 0, 0, [follow, follow])]})
+    return cases
+
+
+FC17B_KEY = "http-client:repeated-connection-field-lines"
+
+
 def gen_racy(rng, seq, n):
     """RST at accept races with the completion of connectSync: the client sees either a failed connect (not sent, retried for
     every method) or a closed connection (possibly sent). Both satisfy the property; the model cannot know which one happened,
@@ -875,10 +901,15 @@ def run(ctx: Ctx):
             cases += gen_offsets(rng.fork("off"), seq, every_byte=not quick)
             cases += gen_persistent(rng.fork("pers"), seq)
             cases += gen_read_boundary(rng.fork("rb"), seq, not quick)
+            cases += gen_repeated_connection(rng.fork("rc"), seq)
             cases += gen_racy(rng.fork("racy"), seq, 40 if quick else 600)
             cases += gen_realtime(rng.fork("rt"), seq, 4 if quick else 12)
         n_mismatch = 0
         exchanges = 0
+        fc17b_listed = any(k.get("kind") == "finding" and k.get("property") == ID and k.get("id") == "FC17b" and k.get("key") == FC17B_KEY
+                           for k in load_known_findings())
+        fc17b_hits = 0
+        late_surplus = {"reused": 0, "fresh": 0}
         interposers = {}
         stopped_early = False
         # small first chunks: a tree that breaks the property can make every exchange slow (unexpected time-outs), and the
@@ -901,6 +932,8 @@ def run(ctx: Ctx):
                 dist[c["cat"]] = dist.get(c["cat"], 0) + 1
                 ctx.count_case("\n".join(c["ops"]), nontrivial=True)
                 fails = monitor_case(c, impl, consts)
+                if c["cat"] == "late-surplus" and impl and impl[-1].startswith("ev="):
+                    late_surplus["reused" if impl[-1].startswith("ev=s") else "fresh"] += 1
                 for op, l in zip(c["ops"], impl):
                     if l.startswith("ev="):
                         n = int(fields_of(l).get("att", "0"))
@@ -913,6 +946,10 @@ def run(ctx: Ctx):
                 mism = [] if c["cat"] in ("racy", "late-surplus") else [(i, a, b) for i, (a, b) in enumerate(zip(impl, model)) if compared(a) != b]
                 if len(ctx.cov["samples"]) < 6 and c["cat"] in ("sequence", "offset-request", "offset-response", "persistent") and rng.chance(1, 60):
                     ctx.sample({"ops": [o[:220] for o in c["ops"][:3]], "impl": [l[:260] for l in impl[:3]]})
+                if c["cat"] == "repeated-connection" and (fails or mism) and fc17b_listed:
+                    # DESIGN §5.3: a listed finding whose witness still reproduces is reported once and is not a violation
+                    fc17b_hits += 1
+                    continue
                 if fails:
                     report_property(ctx, hb, c, impl, model, fails, consts)
                 elif mism:
@@ -930,6 +967,11 @@ def run(ctx: Ctx):
                 stopped_early = True
                 ctx.notes.append("stopped after %d of %d cases: %d property violations, %d correspondence mismatches" % (hi, len(cases), n_prop, n_mismatch))
                 break
+        if fc17b_hits:
+            ctx.known_lines.append("KNOWN-FINDING: property=C17 id=FC17b `Connection: close` on one field line is hidden by a later `Connection:` line "
+                                   "(parseHeaderBlock keeps the last line only): the connection is kept and reused (%d witness cases)" % fc17b_hits)
+        ctx.extra["known_finding_cases"] = {"FC17b": fc17b_hits}
+        ctx.extra["late_surplus_after_idle"] = late_surplus
         ctx.extra["interposers"] = interposers
         ctx.extra["stopped_early"] = stopped_early
         ctx.extra["exchanges"] = exchanges
@@ -944,9 +986,9 @@ def run(ctx: Ctx):
     ctx.assumptions += [
         "what frameResponse does with the received bytes is C15's model; here its outcome per receive iteration (need-more / complete(info) / malformed / cap) is an input class",
         "Transport::receiveSync returns within the timeout it is given and reports Timeout/PeerClosed/BufferOverflow/ShuttingDown as documented (C03/C04)",
-        "'surplus bytes' are bytes beyond the framed message that have been received when frameResponse completes; the generator sends them in the same segment as the message they follow",
         "the engine hands out strictly increasing session ids (TcpEngine::_nextSessionId); the harness numbers sessions by creation order",
         "RST at accept races with connectSync's completion; those cases are judged by the monitors only (category `racy`)",
+        "surplus = every byte the client's transport has RECEIVED beyond the framed message when the reuse decision is taken (handed to the framer or still in the sync buffer: Attempt.residue). Bytes the server writes later arrive on an idle cached connection, are dropped by the transport (HttpClient installs no data callback) and do not prevent reuse — measured in `late_surplus_after_idle`, judged by the monitors only; bytes that arrive after the next request was sent are that request's response by definition",
         "concurrent callers: an exchange (everything under the lease) is one atomic step of the model — exchanges of different hosts touch different keys of _connections under _mutex and commute up to the numbering of sessions; cleanup() during requests is excluded by its documented precondition",
     ]
     return ctx.finish(level="proof", rule="a case = reset + a sequence of logical requests (method, budget, per-attempt fault script) against the scripted loopback server; "
